@@ -284,8 +284,9 @@ def c09_5(c: Ctx) -> None:
                     c.ok(where(u, call), 'no suspension point between the context sets and the invocation')
 
 
-@ob('C09.8', 'CTX', 'an async handler is started in its own task (asyncio.create_task snapshots the context at that moment); it is never awaited inline inside execute_handler, '
-    'whose tasks share one Context object on a parallel_handlers bus — inline execution would let overlapping handlers overwrite each other\'s current-event / handler-id')
+@ob('C09.8', 'CTX', 'overlapping handlers never share context variables: an async handler is started in its own task (asyncio.create_task snapshots the context at that moment), or — '
+    'when it is awaited inside execute_handler — every concurrent execute_handler task is created with a context copy of its own; one Context object shared by the tasks of a '
+    'parallel_handlers bus plus inline execution would let overlapping handlers overwrite each other\'s current-event / handler-id')
 def c09_8(c: Ctx) -> None:
     u = c.unit(SVC, 'EventBus.execute_handler')
     inv = [call for x, call in handler_invocations(c) if x.key == u.key]
